@@ -9,3 +9,43 @@ def violation_key(pid, c):
         if k:
             return k
     return "%s:%s" % (c.engine, c.payload)
+
+
+def _panic_key(pid, c):
+    import re
+    m = re.search(r"PANIC (\S+)", c.go)
+    if m:
+        return "panic:" + m.group(1)
+    if c.go.startswith("HANG"):
+        return "hang"
+    return None
+
+
+key_read = _panic_key
+key_rwp = _panic_key
+key_scan = _panic_key
+
+
+def _strings_in(payload):
+    out = []
+    for tok in payload.split():
+        if tok.startswith("S") and len(tok) > 1:
+            try:
+                out.append(bytes.fromhex(tok[1:]).decode("utf-8", "replace"))
+            except ValueError:
+                pass
+    return out
+
+
+def key_preamble(pid, c):
+    """D12: a placeholder value containing a string that the printer renders in raw form
+    ({"…} text) with a real newline in it: the preamble is line oriented."""
+    k = _panic_key(pid, c)
+    if k:
+        return k
+    parts = c.payload.split("\t")[0].split(" | ")
+    if len(parts) == 2:
+        for s in _strings_in(parts[1]):
+            if s.startswith('{"') and s.endswith("}") and "\n" in s and not s.startswith("\u029e"):
+                return "preamble.rawstring.newline"
+    return None
